@@ -249,6 +249,14 @@ def perturbations(name, enc):
 
 
 def run(ctx):
+    try:
+        _run(ctx)
+    except ConservationBroken as exc:
+        # the class invariant fired outside a judged run (e.g. while the harness built an encoding with the real code)
+        ctx.violation('sent-count-diverges-from-symbols-taken', 'class invariant on the symbol source violated: %s' % str(exc)[:300], {'where': 'outside a judged run'})
+
+
+def _run(ctx):
     import checks.c01 as c01
     import cpppo.automata as automata
     install_invariants(automata)
